@@ -13,6 +13,10 @@
 //                                    numbers parsed back from the text:         lobs dumpwriter_<q> <out/in>
 //   ldata <file> <x> <L> <m> <q>     one-atom LAMMPS data file through LAMMPSDataReader::ReadTopology
 //   element <Z> <symbol>       tools::Elements getters for that number / symbol
+//   hnew                       start a call history: a new persistent tools::Elements object
+//   hcall <method> <args>      the call on the persistent object AND on a fresh object:
+//                                                                               hres <persistent> <fresh>
+//                              (each "=<value>" or "!" for an exception)
 #include <cmath>
 #include <cstdio>
 #include <fstream>
@@ -125,6 +129,59 @@ static void declared(const char *cls, const C &c, bool withTime = true) {
   *outp << "declared " << cls << " force " << name(c.force_unit) << std::endl;
 }
 
+// one public lookup of tools::Elements; "=<value>" or "!" (exception)
+static std::string elementsCall(Elements &el, const std::string &m, std::istringstream args) {
+  std::ostringstream o;
+  o.precision(17);
+  try {
+    if (m == "getEleShortClosestInMass" || m == "isMassAssociatedWithElement") {
+      double mass, tol;
+      args >> mass >> tol;
+      if (!args) return "?";
+      if (m == "getEleShortClosestInMass")
+        o << "=" << el.getEleShortClosestInMass(mass, tol);
+      else
+        o << "=" << (el.isMassAssociatedWithElement(mass, tol) ? 1 : 0);
+    } else if (m == "getEleName") {
+      Index z;
+      args >> z;
+      if (!args) return "?";
+      o << "=" << el.getEleName(z);
+    } else {
+      std::string n;
+      args >> n;
+      if (!args) return "?";
+      if (m == "getMass")
+        o << "=" << el.getMass(n);
+      else if (m == "getNucCrg")
+        o << "=" << el.getNucCrg(n);
+      else if (m == "getEleNum")
+        o << "=" << el.getEleNum(n);
+      else if (m == "getEleFull")
+        o << "=" << el.getEleFull(n);
+      else if (m == "getEleShort")
+        o << "=" << el.getEleShort(n);
+      else if (m == "getVdWChelpG")
+        o << "=" << el.getVdWChelpG(n);
+      else if (m == "getVdWMK")
+        o << "=" << el.getVdWMK(n);
+      else if (m == "getPolarizability")
+        o << "=" << el.getPolarizability(n);
+      else if (m == "isEleShort")
+        o << "=" << (el.isEleShort(n) ? 1 : 0);
+      else if (m == "isEleFull")
+        o << "=" << (el.isEleFull(n) ? 1 : 0);
+      else if (m == "isElement")
+        o << "=" << (el.isElement(n) ? 1 : 0);
+      else
+        return "?";
+    }
+  } catch (const std::exception &) {
+    return "!";
+  }
+  return o.str();
+}
+
 struct NullBuf : std::streambuf {
   int overflow(int c) override { return c; }
 };
@@ -141,6 +198,7 @@ int main() {
   TrajectoryReader::RegisterPlugins();
   TopologyReader::RegisterPlugins();
 
+  std::unique_ptr<Elements> hist;
   std::string line;
   long seq = 0;
   while (std::getline(std::cin, line)) {
@@ -305,6 +363,19 @@ int main() {
         }
         out << "lobs datareader_mass " << b->getMass() / m << std::endl;
         out << "lobs datareader_charge " << b->getQ() / q << std::endl;
+      } else if (cmd == "hnew") {
+        hist.reset(new Elements());
+        out << "ok" << std::endl;
+      } else if (cmd == "hcall") {
+        if (!hist) throw std::runtime_error("driver: hcall before hnew");
+        std::string m, rest;
+        in >> m;
+        std::getline(in, rest);
+        Elements fresh;
+        std::string a = elementsCall(*hist, m, std::istringstream(rest));
+        std::string b = elementsCall(fresh, m, std::istringstream(rest));
+        if (a == "?" || b == "?") throw std::runtime_error("driver: bad hcall " + line);
+        out << "hres " << a << " " << b << std::endl;
       } else if (cmd == "element") {
         Index z;
         std::string sym;
